@@ -46,7 +46,7 @@ MODEL_OP = {"print+parse": "pp", "permute+rebuild": "pr:rev", "simplify": "simp:
 
 
 def correspondence(ctx):
-    walks = 3000 if ctx.thorough else 90
+    walks = 3000 if ctx.thorough else 160
     maxlen = 40 if ctx.thorough else 10
     for name in S.ALL:
         rcls = S.rclass(name)
@@ -62,7 +62,7 @@ def correspondence(ctx):
         for _ in range(walks * 4):
             k = rng.choice([1, 2, 3, 3, 4, 5])
             ranks = sorted(rng.sample(range(1, 10), k))
-            if rng.random() < 0.3:
+            if rng.random() < 0.45:
                 # rich in what simplification removes: runs of '=' after a lower bound / before an upper bound
                 cons = [(rng.choice(["eq", "eq", "ge", "gt", "le", "lt", "ne"]), r) for r in ranks]
             else:
